@@ -221,6 +221,10 @@ def explore(ctx):
            ('m', [(S('base'), ('&', 'cyc', ('m', [(S('x'), S('1')), (S('sub'), ('m', [(MK, ('*', 'cyc'))], None))], None)))], None),
            ('&', 'cyc', ('m', [(MK, ('q', [('*', 'cyc')], None))], None)),
            ('m', [(S('k'), ('&', 'cyc', ('m', [(MK, ('q', [('m', [(S('y'), S('2'))], None), ('*', 'cyc')], None))], None)))], None)]
+    cyc += [('&', 'cyc', ('m', [(('*', 'cyc'), S('1'))], None)),
+            ('&', 'cyc', ('q', [('m', [(('*', 'cyc'), S('1'))], None)], None)),
+            ('m', [(S('k'), ('&', 'cyc', ('m', [(S('x'), S('1')), (('*', 'cyc'), S('2'))], None)))], None),
+            ('&', 'cyc', ('m', [(('q', [('*', 'cyc')], None), S('1'))], None))]
     for body in cyc:
         for t, doc in [(('any',), body), (('map', 'dict', ('str',), ('any',)), ('m', [(S('d'), body)], None)),
                        (('cls', 'Open'), ('m', [(S('a'), S('1')), (S('more'), body)], None)),
